@@ -51,6 +51,9 @@ func (r *RateLimitedTokenRequest) Marshal() []byte {
 }
 
 func (r *RateLimitedTokenRequest) Unmarshal(data []byte) bool {
+	// Drop the cached encoding: it describes the previous value of r.
+	r.raw = nil
+
 	s := cryptobyte.String(data)
 
 	var tokenType uint16
